@@ -783,7 +783,7 @@ def rel_tuples(tuples, root):
 def gen_cli_cases(ctx, real_names, fixture_codes):
     rng = vlib.SplitMix(ctx.seed).fork("C11/cli")
     hist = {}
-    n = 34 if ctx.quick else 500
+    n = 22 if ctx.quick else 500
     # names the generator draws from: the checks the fixture has problems for, and a few others
     names = sorted(set(fixture_codes) | {"S1000", "SA4006", "SA1019", "ST1005", "S1008", "SA9004"})
     names = [x for x in names if x in real_names]
@@ -1004,7 +1004,8 @@ def phase_corpus(ctx, binary, real_names, col, cov):
         for f in FORMATS:
             jobs.append((i, f, root, ["-f=" + f] + c["args"] + ["./..."]))
         # companion: the live problems (= printed without -show-ignored)
-        jobs.append((i, "live", root, ["-f=json"] + [a for a in c["args"] if a != "-show-ignored"] + ["./..."]))
+        if "-show-ignored" in c["args"]:
+            jobs.append((i, "live", root, ["-f=json"] + [a for a in c["args"] if a != "-show-ignored"] + ["./..."]))
 
     def one(job):
         i, f, root, args = job
@@ -1016,7 +1017,7 @@ def phase_corpus(ctx, binary, real_names, col, cov):
     for (i, f, root, args), (rc, so, se) in zip(jobs, results):
         by.setdefault(i, {})[f] = (rc, so, se, root, args)
     for i, c in enumerate(cases):
-        rc, so, se, root, args = by[i]["live"]
+        rc, so, se, root, args = by[i].get("live") or by[i]["json"]
         if rc not in (0, 1):
             col.oracle_fail("corpus-crash", {"phase": "corpus", "case": c["name"], "args": args, "exit_status": rc, "stderr": se[-800:], "what": "staticcheck exited %d" % rc})
             continue
@@ -1063,7 +1064,7 @@ def phase_binary_merge(ctx, binary, probe, real_names, col, cov):
     base = os.path.dirname(ctx.path("binmerge", "x"))
     known = frozenset(n.lower() for n in real_names)
     hist = {}
-    n = 10 if ctx.quick else 120
+    n = 6 if ctx.quick else 120
     cases = []
     pool = ["S1002", "S1005", "SA4000", "SA4018", "SA5007", "ST1000", "ST1006", "U1000", "SA9003", "compile", "config", "staticcheck"]
     for i in range(n):
